@@ -124,8 +124,17 @@ def gen_steps():
         ("writeMeta", r"file\.write_all\(buf\.as_slice\(\)\)"),
         ("flush", r"file\.flush\(\)"),
         ("sync", r"file\.sync_all\(\)"),
+        ("beginHeaderAttempt", r"let written = \(\|\| -> Result<\(\)> \{"),
         ("publishFreelist", r"\*lock = freelist\.inner\.clone\(\)"),
     ], "TxInner::write_data", once=("freeOldFreelist", "allocFreelist", "grow", "writeData", "strictCheck", "writeMeta", "publishFreelist"))
+    # publication guarded by "our header is the visible one": a different step
+    guard = re.search(r"if written\.is_ok\(\) \|\| self\.db\.inner\.meta\(\)\?\.tx_id == self\.meta\.tx_id \{\s*let mut lock = self\.db\.inner\.freelist\.lock\(\)\?;\s*\*lock = freelist\.inner\.clone\(\);\s*\}", w)
+    if guard and "beginHeaderAttempt" in commit:
+        if not re.search(r"crate::verif::point\(\"commit\.after_publish\", self\.meta\.tx_id\);\s*written\s*\}", w) and not re.search(r"\}\s*written\s*\}", w):
+            raise GenError("TxInner::write_data: the result of the header attempt is not what is returned")
+        commit = ["publishIfVisible" if x == "publishFreelist" else x for x in commit]
+    elif "beginHeaderAttempt" in commit:
+        commit = [x for x in commit if x != "beginHeaderAttempt"]
     if "sync" not in commit:
         raise GenError("TxInner::write_data: no sync_all")
     # every file operation must propagate its error with `?`
